@@ -29,6 +29,10 @@ fn kd10_reset_equals_fresh() {
     let mut hb = [0u16; HASH_SIZE];
     let mut peb = [MaybeUninit::new(0u8); 4 * LB];
     let mut syb = [0u8; 3 * LB];
+    // stale hash-table contents from the previous stream, anywhere in the 65536-entry table
+    let dirty: usize = kani::any();
+    kani::assume(dirty < HASH_SIZE);
+    ha[dirty] = 0x1234;
     let mut a = typed_state(&mut wa, &mut pa, &mut ha, &mut pea, &mut sya, WB, LB, level, wrap0, Strategy::Default);
     let mut b = typed_state(&mut wb, &mut pb, &mut hb, &mut peb, &mut syb, WB, LB, level, wrap0, Strategy::Default);
     // dirty every scalar of `a` (a finished stream has wrap negated)
@@ -91,7 +95,8 @@ fn kd10_reset_equals_fresh() {
     assert!(x.sym_buf.is_empty() && y.sym_buf.is_empty());
     let i: usize = kani::any();
     kani::assume(i < HASH_SIZE);
-    assert!(x.head.as_slice()[i] == 0);
+    assert!(x.head.as_slice()[i] == 0, "the whole hash table is cleared, whatever the window size");
+    assert!(x.head.as_slice()[dirty] == 0);
     let k: usize = kani::any();
     kani::assume(k < L_CODES);
     assert!(x.l_desc.dyn_tree[k].freq() == y.l_desc.dyn_tree[k].freq());
@@ -322,5 +327,75 @@ fn kd10_set_dictionary_protocol() {
     kani::cover!(rc == ReturnCode::Ok && wrap == 0 && dl >= 1024);
     kani::cover!(rc == ReturnCode::StreamError && wrap == 1);
     core::mem::forget(stream);
+    core::mem::forget(state);
+}
+
+// ---------------------------------------------------------------------------------------------------------------
+// KA2 — deflateEnd: whatever the stream's status, the state block obtained from zalloc goes back to zfree exactly
+// once, with the pointer zalloc returned and the same opaque handle, and the stream is left without a state (C18).
+// ---------------------------------------------------------------------------------------------------------------
+static mut END_ARENA: [u8; 192] = [0xEE; 192];
+static mut END_FREED: usize = 0;
+static mut END_FREE_CALLS: u32 = 0;
+static mut END_OPAQUE_OK: bool = true;
+const END_OPAQUE: usize = 0x7a7a;
+
+unsafe extern "C" fn za_arena(o: *mut core::ffi::c_void, _items: u32, _size: u32) -> *mut core::ffi::c_void {
+    unsafe {
+        END_OPAQUE_OK &= o as usize == END_OPAQUE;
+        (core::ptr::addr_of_mut!(END_ARENA) as *mut u8).add(3) as *mut core::ffi::c_void // deliberately misaligned
+    }
+}
+unsafe extern "C" fn zf_arena(o: *mut core::ffi::c_void, p: *mut core::ffi::c_void) {
+    unsafe {
+        END_OPAQUE_OK &= o as usize == END_OPAQUE;
+        END_FREED = p as usize;
+        END_FREE_CALLS += 1;
+    }
+}
+
+#[kani::proof]
+#[kani::unwind(4)]
+#[kani::stub(core::fmt::write, stub_fmt_write)]
+#[kani::stub(core::panicking::panic_nounwind, stub_pn)]
+#[kani::stub(core::panicking::panic_nounwind_fmt, stub_pnf)]
+fn ka2_deflate_end_releases_once() {
+    let mut w = [0u8; 2 << WB];
+    let mut p = [0u16; 1 << WB];
+    let mut h = [0u16; HASH_SIZE];
+    let mut pe = [MaybeUninit::new(0u8); 4 * LB];
+    let mut sy = [0u8; 3 * LB];
+    let mut state = typed_state(&mut w, &mut p, &mut h, &mut pe, &mut sy, WB, LB, 6, 1, Strategy::Default);
+    let alloc = Allocator { zalloc: za_arena, zfree: zf_arena, opaque: END_OPAQUE as *mut core::ffi::c_void, _marker: PhantomData };
+    // the block as init()/copy() obtain it
+    let block = alloc.allocate_slice_raw::<u8>(64).unwrap();
+    state.allocation_start = block;
+    state.total_allocation_size = 64;
+    state.status = match kani::any::<u8>() % 8 {
+        0 => Status::Init,
+        1 => Status::GZip,
+        2 => Status::Extra,
+        3 => Status::Name,
+        4 => Status::Comment,
+        5 => Status::Hcrc,
+        6 => Status::Busy,
+        _ => Status::Finish,
+    };
+    let busy = state.status == Status::Busy;
+    let mut stream = typed_stream(unsafe { &mut *(&mut state as *mut State) });
+    stream.alloc = alloc;
+    let r = end(&mut stream);
+    // deflateEnd reports Z_DATA_ERROR for a stream abandoned mid-way, but it has released everything all the same
+    let (is_err, z) = match r {
+        Ok(z) => (false, z),
+        Err(z) => (true, z),
+    };
+    assert!(is_err == busy);
+    assert!(z.state.is_null(), "no state left: a second End is refused instead of freeing twice");
+    assert!(unsafe { END_FREE_CALLS } == 1, "the state block is released exactly once, whatever the status");
+    assert!(unsafe { END_FREED } == unsafe { core::ptr::addr_of!(END_ARENA) as usize } + 3, "zfree receives the pointer zalloc returned");
+    assert!(unsafe { END_OPAQUE_OK }, "same opaque handle");
+    kani::cover!(busy);
+    kani::cover!(!busy);
     core::mem::forget(state);
 }
